@@ -22,8 +22,9 @@ def scenarios(tier):
     L.append((SC.scn("cross-j2", w["cross"], ["redo --no-log -j2 p q"], visible=SC.TOKENS + ["lock-try"]), 1 if q else 2))
     # (5) all-success graphs at -j2 / -j3
     L.append((SC.scn("diamond-j2", w["diamond"], ["redo --no-log -j2 top"], visible=SC.TOKENS), 1 if q else 2))
+    # several children exiting between two wake-ups of their parent (default schedule: the parent parks, all children finish)
+    L.append((SC.scn("fan3-j3", w["fan3"], ["redo --no-log -j3 top"], visible=SC.TOKENS), 0 if q else 2))
     if not q:
-        L.append((SC.scn("fan3-j3", w["fan3"], ["redo --no-log -j3 top"], visible=SC.TOKENS), 2))
         L.append((SC.scn("fan3x2-j3", w["fan3x2"], ["redo --no-log -j3 t1 t2"], visible=SC.TOKENS), 2))
         L.append((SC.scn("failfan-j2", w["failfan"], ["redo --no-log -j2 top"], visible=SC.TOKENS), 2))
     return L
@@ -40,9 +41,26 @@ def oracle(scn, res):
     return out
 
 
+READY = {}
+
+
+def collect(scn, res):
+    """which sets of ready events did an event-loop wake-up see? (the property quantifies over every subset of
+    {child k exits, token arrives} between two wake-ups)"""
+    import re
+    rs = READY.setdefault(scn["name"], set())
+    for s in res["steps"]:
+        if s["kind"] == "select" and s["label"] == "io":
+            m = re.search(r"ready=(\S*)", s["detail"])
+            if m:
+                parts = sorted("token" if x == "tok" else "child-exit" for x in m.group(1).split(",") if x)
+                rs.add("+".join(parts))
+
+
 def main(tier):
     return e2prop.run_property(
-        PID, tier, scenarios(tier), oracle,
+        PID, tier, scenarios(tier), oracle, collect=collect,
+        extra=lambda: {"distinct_ready_sets_at_wakeups": {k: sorted(v) for k, v in READY.items()}},
         rule="stateless exploration of the real process tree under a controlled scheduler: every schedule with <= b "
              "deviations (quick b<=1, thorough b<=2) from the default policy, at the granularity of the scenario's visible "
              "gates (event-loop wake-ups with the exact set of ready descriptors, token/cheat pipe reads and writes, lock "
